@@ -1210,8 +1210,14 @@ reply_handle(struct request *const req, u16 flags, u32 ttl, struct reply *reply)
 	}
 }
 
+/* Parses the name at packet[*idx] into name_out as a dotted string.  When
+ * 'strict' is set the name is going to be used as text (handed to a callback,
+ * compared, encoded again), so names that have no faithful dotted form are
+ * refused; when it is clear the name is only being skipped. */
+#define name_parse(packet, length, idx, name_out, name_out_len) \
+	name_parse_((packet), (length), (idx), (name_out), (name_out_len), 1)
 static int
-name_parse(u8 *packet, int length, int *idx, char *name_out, int name_out_len) {
+name_parse_(u8 *packet, int length, int *idx, char *name_out, int name_out_len, int strict) {
 	int name_end = -1;
 	int j = *idx;
 	int ptr_count = 0;
@@ -1254,8 +1260,8 @@ name_parse(u8 *packet, int length, int *idx, char *name_out, int name_out_len) {
 		/* A label holding a '.' or a NUL cannot be told from several
 		 * labels (or from the end of the name) once it has become a
 		 * dotted C string, so it cannot be presented faithfully. */
-		if (memchr(packet + j, '.', label_len) ||
-		    memchr(packet + j, '\0', label_len))
+		if (strict && (memchr(packet + j, '.', label_len) ||
+		    memchr(packet + j, '\0', label_len)))
 			return -1;
 		memcpy(cp, packet + j, label_len);
 		cp += label_len;
@@ -1266,7 +1272,7 @@ name_parse(u8 *packet, int length, int *idx, char *name_out, int name_out_len) {
 	/* RFC 1035 2.3.4: a name is at most 255 octets on the wire, that is
 	 * 253 characters in dotted form.  Anything longer could not be encoded
 	 * again (for instance to echo a question in a response). */
-	if (cp - name_out > 253) return -1;
+	if (strict && cp - name_out > 253) return -1;
 	if (name_end < 0)
 		*idx = j;
 	else
@@ -1323,8 +1329,8 @@ reply_parse(struct evdns_base *base, u8 *packet, int length)
 	/* This macro skips a name in the DNS reply. */
 #define SKIP_NAME						\
 	do { tmp_name[0] = '\0';				\
-		if (name_parse(packet, length, &j, tmp_name,	\
-			sizeof(tmp_name))<0)			\
+		if (name_parse_(packet, length, &j, tmp_name,	\
+			sizeof(tmp_name), 0)<0)			\
 			goto err;				\
 	} while (0)
 
